@@ -286,6 +286,8 @@ impl Prop for C03 {
         if n <= 40 {
             crate::props::c02::protocol("Dijkstra", || Dijkstra::new(&g, c.sources.iter().copied()), &seq)?;
             crate::props::c02::protocol("DijkstraDist", || DijkstraDist::new(&g, c.sources.iter().copied()), &items)?;
+            crate::props::c02::clone_consistency("Dijkstra", || Dijkstra::new(&g, c.sources.iter().copied()), seq.len())?;
+            crate::props::c02::clone_consistency("DijkstraDist", || DijkstraDist::new(&g, c.sources.iter().copied()), items.len())?;
         }
 
         // classification
